@@ -608,3 +608,227 @@ Proof.
       rewrite zget_zrepeat in Hget by lia. rewrite zget_zrepeat in Hget by lia.
       injection Hget as ->. reflexivity.
 Qed.
+
+(* ------------------------------------------------------------------ clipped to ALL ancestors, any window *)
+
+(* the path of a painted cell: the rectangles (absolute origin, size) of the nodes from the
+   root's child down to the node whose buffer holds the cell *)
+Inductive paint_path {A} : surface A -> Z -> Z -> Z -> Z -> A -> list frame -> Prop :=
+| PP_own w h buf kids ox oy x y c :
+    in_rect ox oy w h x y = true -> zget buf ((y - oy) * w + (x - ox)) = Some c ->
+    paint_path (Surf w h buf kids) ox oy x y c []
+| PP_kid w h buf kids ox oy x y c col row z ch path :
+    In (col, row, z, ch) kids -> paint_path ch (ox + col) (oy + row) x y c path ->
+    paint_path (Surf w h buf kids) ox oy x y c ((ox + col, oy + row, s_w ch, s_h ch) :: path).
+
+Lemma fold_later_some {A} (l : list (option A)) : forall own c,
+  fold_left later l own = Some c -> own = Some c \/ In (Some c) l.
+Proof.
+  induction l as [|o t IH]; intros own c H; cbn [fold_left] in H; [left; exact H|].
+  destruct (IH _ _ H) as [E|Hin]; [|right; right; exact Hin].
+  destruct o as [v|]; cbn [later] in E; [right; left; exact E | left; exact E].
+Qed.
+
+Lemma reorder_in {B} (perm : list nat) (l : list B) b : In b (reorder perm l) -> In b l.
+Proof.
+  unfold reorder. intros H. apply in_flat_map in H. destruct H as (i & _ & H).
+  destruct (nth_error l i) as [v|] eqn:E; [|destruct H]. destruct H as [<-|[]].
+  eapply nth_error_In; eauto.
+Qed.
+
+(* whatever [shown] shows at a point is a buffer cell of some node, and the point is inside
+   the rectangle of every node on the path from the root's child to that node *)
+Lemma shown_paint_path {A} (sorter : list Z -> list nat) : forall (s : surface A) ox oy x y c,
+  shown sorter s ox oy x y = Some c ->
+  exists path, paint_path s ox oy x y c path /\ Forall (fun r => rect_has r x y = true) path.
+Proof.
+  induction s as [w h buf kids IH] using surface_ind'. intros ox oy x y c H.
+  cbn [shown] in H. apply fold_later_some in H. destruct H as [H|H].
+  - destruct (in_rect ox oy w h x y) eqn:Ein; [|discriminate].
+    exists []. split; [constructor; assumption | constructor].
+  - apply reorder_in in H. apply in_map_iff in H. destruct H as ([[[col row] z] ch] & E & Hin).
+    destruct (in_rect (ox + col) (oy + row) (s_w ch) (s_h ch) x y) eqn:Ein; [|discriminate].
+    rewrite Forall_forall in IH. specialize (IH _ Hin). cbn [kid_surf] in IH.
+    destruct (IH _ _ _ _ _ E) as (path & Hp & Hall).
+    exists ((ox + col, oy + row, s_w ch, s_h ch) :: path). split.
+    + econstructor; eassumption.
+    + constructor; [exact Ein | exact Hall].
+Qed.
+
+Lemma paint_path_justified : forall (s : surface Z) ox oy x y v path,
+  paint_path s ox oy x y v path -> Forall (fun r => rect_has r x y = true) path ->
+  justified s ox oy x y v = true.
+Proof.
+  intros s ox oy x y v path Hp. induction Hp as [w h buf kids ox oy x y c Hin Hget | w h buf kids ox oy x y c col row z ch path Hin Hp IH];
+    intros Hall; cbn [justified].
+  - rewrite Hin, Hget, Z.eqb_refl. reflexivity.
+  - apply orb_true_intro. right. apply existsb_exists. exists (col, row, z, ch). split; [exact Hin|].
+    inversion Hall as [|? ? Hr Ht]; subst. cbn [rect_has] in Hr. rewrite Hr. cbn [andb]. apply IH, Ht.
+Qed.
+
+Lemma justified_paint_path : forall (s : surface Z) ox oy x y v,
+  justified s ox oy x y v = true ->
+  exists path, paint_path s ox oy x y v path /\ Forall (fun r => rect_has r x y = true) path.
+Proof.
+  induction s as [w h buf kids IH] using surface_ind'. intros ox oy x y v H.
+  cbn [justified] in H. apply orb_prop in H. destruct H as [H|H].
+  - apply andb_prop in H. destruct H as [Hin Hc].
+    destruct (zget buf ((y - oy) * w + (x - ox))) as [c|] eqn:Eg; [|discriminate].
+    assert (c = v) by lia; subst c. exists []. split; [constructor; assumption | constructor].
+  - apply existsb_exists in H. destruct H as ([[[col row] z] ch] & Hin & H).
+    apply andb_prop in H. destruct H as [Hr Hj].
+    rewrite Forall_forall in IH. specialize (IH _ Hin). cbn [kid_surf] in IH.
+    destruct (IH _ _ _ _ _ Hj) as (path & Hp & Hall).
+    exists ((ox + col, oy + row, s_w ch, s_h ch) :: path). split.
+    + econstructor; eassumption.
+    + constructor; [exact Hr | exact Hall].
+Qed.
+
+Lemma shown_justified (sorter : list Z -> list nat) (s : surface Z) ox oy x y v :
+  shown sorter s ox oy x y = Some v -> justified s ox oy x y v = true.
+Proof.
+  intros H. destruct (shown_paint_path sorter s ox oy x y v H) as (path & Hp & Hall).
+  eapply paint_path_justified; eassumption.
+Qed.
+
+(* render into ANY window (larger than, equal to or smaller than the root surface; any chain of
+   Window.New frames), on any screen: every screen cell is either untouched or shows a buffer
+   cell of some node of the tree at that node's offset, inside the window's clip and inside the
+   rectangle of every ancestor of that node below the root. *)
+Lemma render_clipped_to_ancestors {A} (sorter : list Z -> list nat) (s : surface A) win (sc : screen A) :
+  wf_tree s -> win <> [] -> screen_wf sc ->
+  exists ps sc', render_gen sorter win s = Some ps /\ screen_apply sc ps = Some sc' /\
+    forall x y, 0 <= x < sc_cols sc -> 0 <= y < sc_rows sc ->
+      screen_get sc' x y = screen_get sc x y \/
+      exists c path, screen_get sc' x y = Some c /\ win_clip win x y = true /\
+        paint_path s (fst (win_org win)) (snd (win_org win)) x y c path /\
+        Forall (fun r => rect_has r x y = true) path.
+Proof.
+  intros Hs Hne Hsc.
+  destruct (render_paints_screen sorter s win sc Hs Hne Hsc) as (ps & sc' & E1 & E2 & _ & _ & Hget).
+  exists ps, sc'. split; [exact E1|]. split; [exact E2|]. intros x y Hx Hy.
+  specialize (Hget x y Hx Hy). destruct (win_org win) as [ox oy]. cbn [fst snd].
+  destruct (win_clip win x y) eqn:Eclip; [|left; exact Hget].
+  destruct (shown sorter s ox oy x y) as [c|] eqn:Esh; [|left; exact Hget].
+  right. destruct (shown_paint_path sorter s ox oy x y c Esh) as (path & Hp & Hall).
+  exists c, path. repeat split; assumption.
+Qed.
+
+(* a Window.New frame for a child is never larger than the child: a window exceeds its surface
+   only at the root *)
+Lemma win_new_within (win : window) col row cols rows :
+  0 <= cols -> 0 <= rows ->
+  win_w (win_new win col row cols rows) <= cols /\ win_h (win_new win col row cols rows) <= rows.
+Proof.
+  intros Hc Hr. unfold win_new; cbn [win_w win_h].
+  replace (cols <? 0) with false by lia. replace (rows <? 0) with false by lia.
+  destruct (cols + col >? win_w win) eqn:E1; destruct (rows + row >? win_h win) eqn:E2; lia.
+Qed.
+
+(* ... and Window.New(0,0,w,h) of a window no larger than w x h clips exactly as that window:
+   sharing the parent's window with a same-size child at (0,0) is equivalent below the root only *)
+Lemma win_new_same_size (win : window) w h x y :
+  win <> [] -> 0 <= w -> 0 <= h -> win_w win <= w -> win_h win <= h ->
+  win_clip (win_new win 0 0 w h) x y = win_clip win x y.
+Proof.
+  intros Hne Hw Hh Hww Hwh.
+  pose proof (win_new_spec win 0 0 w h x y Hne Hw Hh) as H.
+  destruct (win_org win) as [ox oy] eqn:Eorg. destruct H as [_ ->].
+  destruct win as [|[[[c r] ww] wh] p]; [congruence|].
+  cbn [win_clip]. rewrite Eorg. cbn [win_w win_h] in Hww, Hwh.
+  unfold in_rect. destruct (win_clip p x y); lia.
+Qed.
+
+(* ------------------------------------------------------------------ the model meets the strengthened checks *)
+
+Lemma all_rows_and (f g : Z -> Z -> Z -> bool) : forall rows y0,
+  all_rows f y0 rows = true -> all_rows g y0 rows = true ->
+  all_rows (fun x y c => f x y c && g x y c) y0 rows = true.
+Proof.
+  induction rows as [|r t IH]; intros y0 Hf Hg; [reflexivity|]. cbn [all_rows] in *.
+  apply andb_prop in Hf. apply andb_prop in Hg. destruct Hf as [Hf1 Hf2], Hg as [Hg1 Hg2].
+  apply andb_true_intro; split; [|apply IH; assumption].
+  clear - Hf1 Hg1. generalize dependent 0. induction r as [|c l IHl]; intros x0 Hf Hg; [reflexivity|].
+  apply andb_prop in Hf. apply andb_prop in Hg. destruct Hf as [Hf1 Hf2], Hg as [Hg1 Hg2].
+  rewrite Hf1, Hg1. cbn [andb]. apply IHl; assumption.
+Qed.
+
+Lemma all_rows_impl (f g : Z -> Z -> Z -> bool) : (forall x y c, f x y c = true -> g x y c = true) ->
+  forall rows y0, all_rows f y0 rows = true -> all_rows g y0 rows = true.
+Proof.
+  intros Himp. induction rows as [|r t IH]; intros y0 Hf; [reflexivity|]. cbn [all_rows] in *.
+  apply andb_prop in Hf. destruct Hf as [Hf1 Hf2].
+  apply andb_true_intro; split; [|apply IH; assumption].
+  clear - Hf1 Himp. generalize dependent 0. induction r as [|c l IHl]; intros x0 Hf; [reflexivity|].
+  apply andb_prop in Hf. destruct Hf as [Hf1 Hf2].
+  rewrite (Himp _ _ _ Hf1). cbn [andb]. apply IHl; assumption.
+Qed.
+
+(* exact agreement with [shown] inside the clip implies the clipping clause *)
+Lemma shown_rows_clipped (win : window) (s : surface Z) scr :
+  all_rows (fun x y c => match (if win_clip win x y then shown stable_perm s (fst (win_org win)) (snd (win_org win)) x y else None) with
+                         | Some v => c =? v | None => c =? 0 end) 0 scr = true ->
+  clipped_ok win s scr = true.
+Proof.
+  unfold clipped_ok. destruct (win_org win) as [ox oy]. cbn [fst snd].
+  apply all_rows_impl. intros x y c H.
+  destruct (win_clip win x y) eqn:Eclip; [|rewrite H; reflexivity].
+  destruct (shown stable_perm s ox oy x y) as [v|] eqn:Esh; [|rewrite H; reflexivity].
+  assert (c = v) by lia; subst c. rewrite (shown_justified _ _ _ _ _ _ _ Esh). cbn [andb]. apply orb_true_r.
+Qed.
+
+Lemma fold_win_new_ne : forall (fr : list frame) (w0 : window), w0 <> [] ->
+  fold_left (fun win (f : frame) => let '(c, r, w, h) := f in win_new win c r w h) fr w0 <> [].
+Proof.
+  induction fr as [|[[[c r] w] h] t IH]; intros w0 H0; cbn [fold_left]; [exact H0|].
+  apply IH. unfold win_new. discriminate.
+Qed.
+
+Lemma win_chain_ne cols rows frames : win_chain cols rows frames <> [].
+Proof. unfold win_chain. apply fold_win_new_ne. discriminate. Qed.
+
+Lemma renderwin_run_ok cols rows frames (s : surface Z) : 0 <= cols -> 0 <= rows ->
+  renderwin_ok ((cols, rows, frames, s), renderwin_run (cols, rows, frames, s)) = true.
+Proof.
+  intros Hc Hr. unfold renderwin_ok. destruct (renderwin_run (cols, rows, frames, s)) as [out scr] eqn:Erun.
+  destruct (tree_wf_b s) eqn:Ewf; [|reflexivity]. revert Erun.
+  apply tree_wf_b_sound in Ewf. unfold renderwin_run, render.
+  set (win := win_chain cols rows frames).
+  assert (Hne : win <> []) by apply win_chain_ne.
+  destruct (render_gen_spec stable_perm s Ewf win Hne) as (ps & E & Hps).
+  rewrite E.
+  destruct (screen_apply_spec ps (new_screen 0 cols rows) (new_screen_wf 0 cols rows Hc Hr))
+    as (sc & E2 & (_ & _ & Hlen & Hall) & Ec & Er & Hget).
+  rewrite E2. intros Erun; injection Erun as <- <-.
+  cbn [new_screen sc_cols sc_rows] in Ec, Er, Hget. rewrite Ec in Hall. rewrite Er in Hlen.
+  assert (Hrows : all_rows (fun x y c => match (if win_clip win x y then shown stable_perm s (fst (win_org win)) (snd (win_org win)) x y else None) with
+                         | Some v => c =? v | None => c =? 0 end) 0 (sc_buf sc) = true).
+  { apply all_rows_intro. intros k r Hk j c Hj. cbn [Z.add].
+    pose proof (zget_some_range _ _ _ Hk) as Hkr. rewrite Hlen in Hkr.
+    assert (Hrl : zlen r = cols) by (rewrite Forall_forall in Hall; apply Hall; eapply zget_In; eauto).
+    pose proof (zget_some_range _ _ _ Hj) as Hjr. rewrite Hrl in Hjr.
+    specialize (Hget j k Hjr Hkr). unfold screen_get in Hget at 1. rewrite Hk, Hj in Hget.
+    rewrite Hps in Hget. destruct (win_org win) as [ox oy]. cbn [fst snd].
+    destruct (if win_clip win j k then shown stable_perm s ox oy j k else None) as [v|].
+    + injection Hget as ->. apply Z.eqb_refl.
+    + unfold screen_get, new_screen in Hget; cbn [sc_buf] in Hget.
+      rewrite zget_zrepeat in Hget by lia. rewrite zget_zrepeat in Hget by lia.
+      injection Hget as ->. reflexivity. }
+  pose proof (shown_rows_clipped win s _ Hrows) as Hclip.
+  destruct (win_org win) as [ox oy] eqn:Eorg. cbn [fst snd] in Hrows.
+  replace (0 =? 0) with true by reflexivity. rewrite Hlen, Z.eqb_refl. cbn [andb].
+  rewrite Hrows, Hclip, !andb_true_r.
+  apply forallb_forall. intros r Hin. rewrite Forall_forall in Hall. rewrite (Hall r Hin). apply Z.eqb_refl.
+Qed.
+
+Lemma render_run_ok2 cols rows (s : surface Z) : 0 <= cols -> 0 <= rows ->
+  render_ok2 ((cols, rows, s), render_run (cols, rows, s)) = true.
+Proof.
+  intros Hc Hr. unfold render_ok2. rewrite render_run_ok by assumption. cbn [andb].
+  pose proof (renderwin_run_ok cols rows [] s Hc Hr) as H. unfold renderwin_ok in H.
+  change (renderwin_run (cols, rows, [], s)) with (render_run (cols, rows, s)) in H.
+  destruct (render_run (cols, rows, s)) as [out scr]. destruct (tree_wf_b s); [|reflexivity].
+  change (win_chain cols rows []) with [(0, 0, cols, rows)] in H.
+  destruct (win_org [(0, 0, cols, rows)]) as [ox oy]. apply andb_prop in H. exact (proj2 H).
+Qed.
+
